@@ -217,8 +217,27 @@ def c02(ck):
 
 
 CHECKS = {"C01": c01, "C02": c02}
+INFO = {}
 NOT_APPLICABLE = {}
 HOOK_COMMITS = ["8766e8b"]
+
+
+def _load_plugins():
+    """bin/checks/cNN.py: ID = "CNN"; def run(ck); INFO = (level text, level note, technique, design ref)"""
+    import importlib.util
+    d = os.path.join(os.path.dirname(os.path.abspath(__file__)), "checks")
+    for f in sorted(glob.glob(os.path.join(d, "c*.py"))):
+        spec = importlib.util.spec_from_file_location("checks_" + os.path.basename(f)[:-3], f)
+        m = importlib.util.module_from_spec(spec)
+        spec.loader.exec_module(m)
+        CHECKS[m.ID] = m.run
+        INFO[m.ID] = m.INFO
+        if hasattr(m, "selftest"):
+            SELFTESTS.append(m.selftest)
+
+
+SELFTESTS = []
+_load_plugins()
 
 
 # ------------------------------------------------------------------------------------------------
@@ -254,6 +273,10 @@ def selftest():
     if got != [2, 3, 4]:
         print("SELFTEST FAILED: Trace_Events rejected %s, expected [2,3,4]" % got)
         return 2
+    for st in SELFTESTS:
+        rc = st()
+        if rc != 0:
+            return rc
     print("selftest ok")
     return 0
 
